@@ -55,13 +55,26 @@ pub fn sibling(p: &Parameters, r: &mut StdRng) -> Parameters {
     let fresh = geometry(GEOMETRY_CLASSES[r.gen_range(0..GEOMETRY_CLASSES.len())], r);
     let mut s = *p;
     if !r.gen_bool(0.34) {
-        if r.gen_bool(0.5) { s.a1 = fresh.a1; }
-        if r.gen_bool(0.5) { s.a2 = fresh.a2; }
-        if r.gen_bool(0.5) { s.b = fresh.b; }
-        if r.gen_bool(0.5) { s.c1 = fresh.c1; }
-        if r.gen_bool(0.5) { s.c2 = fresh.c2; }
-        if r.gen_bool(0.5) { s.c3 = fresh.c3; }
-        if r.gen_bool(0.5) { s.c4 = fresh.c4; }
+        // (each length: kept; re-drawn; a calibrated value, 0.05 .. 0.9 mm off the nominal one; or - a1, a2, b - the
+        //  mirror image)
+        let scale = [p.c2.abs(), p.c3.abs()].iter().cloned().fold(0.0, f64::max).max(1e-9) / 0.65;
+        let mut pick = |old: f64, new: f64, may_flip: bool, r: &mut StdRng| -> f64 {
+            match r.gen_range(0..8) {
+                0 | 1 | 2 => new,
+                3 => old + r.gen_range(0.05e-3..0.9e-3) * scale * if r.gen_bool(0.5) { 1.0 } else { -1.0 },
+                4 if may_flip => -old,
+                _ => old,
+            }
+        };
+        s.a1 = pick(s.a1, fresh.a1, true, r);
+        s.a2 = pick(s.a2, fresh.a2, true, r);
+        s.b = pick(s.b, fresh.b, true, r);
+        s.c1 = pick(s.c1, fresh.c1, false, r);
+        s.c2 = pick(s.c2, fresh.c2, false, r);
+        s.c3 = pick(s.c3, fresh.c3, false, r);
+        s.c4 = pick(s.c4, fresh.c4, false, r);
+        // (one sibling in twelve has forearm offset and length exchanged: the same a2^2 + c3^2)
+        if r.gen_bool(0.08) && s.a2 != 0.0 { std::mem::swap(&mut s.a2, &mut s.c3); }
     }
     let keep6 = (s.sign_corrections[5], s.offsets[5]);
     s = convention(s, r.gen_range(0..64), ["zero", "quarter", "random"][r.gen_range(0..3)], r);
